@@ -3,6 +3,7 @@ package eng
 import (
 	"fmt"
 	"go/types"
+	"math"
 	"sort"
 
 	"golang.org/x/tools/go/ssa"
@@ -453,16 +454,16 @@ func (x *Exec) Merge(c *Term, a, b Value) Value {
 		bv := b.(FloatV)
 		r := FloatV{}
 		nc := u.Not(c)
-		idx := map[float64]int{}
+		idx := map[uint64]int{}
 		add := func(g *Term, f float64) {
 			if g.IsFalse() {
 				return
 			}
-			if i, ok := idx[f]; ok {
+			if i, ok := idx[math.Float64bits(f)]; ok {
 				r.Alts[i].G = u.Or(r.Alts[i].G, g)
 				return
 			}
-			idx[f] = len(r.Alts)
+			idx[math.Float64bits(f)] = len(r.Alts)
 			r.Alts = append(r.Alts, FlAlt{g, f})
 		}
 		for _, al := range av.Alts {
